@@ -25,6 +25,10 @@ func C16(ctx *core.Ctx, r *core.Report) {
 	c16SyntaxErrors(ctx, r)
 	c16WhereScope(ctx, r)
 	c16WhereBaseByIdentity(ctx, r)
+	// a comparison holds exactly when it holds mathematically: the sign Compare returns (C17's rule, on the same methods)
+	if impls, _ := comparableImpls(ctx, r); len(impls) > 0 {
+		c17CompareOrder(ctx, r, impls)
+	}
 	r.Count("instances:no-stale-verdicts(tables of data-derived answers)", noStaleVerdicts(ctx, r, scopeFuncs(ctx, "node"), "node", "nodeutil"))
 }
 
